@@ -86,10 +86,21 @@ CodeKey(c, hasContent) == [k |-> "code", code |-> c, content |-> hasContent]
 DefaultKey(hasContent) == [k |-> "default", code |-> 0, content |-> hasContent]
 RangeKey(digit)        == [k |-> "range", code |-> digit, content |-> FALSE]
 
-\* the family of the design check and of the replay: 200 carries a JSON body, 204 does not; 404, 419, 500, 520 are error
-\* responses without a body, 410 is an error response WITH a body (a "problem" document)
-Universe == {CodeKey(200, TRUE), CodeKey(204, FALSE), CodeKey(302, FALSE), CodeKey(404, FALSE), CodeKey(410, TRUE),
-             CodeKey(419, FALSE), CodeKey(500, FALSE), CodeKey(520, FALSE), DefaultKey(TRUE), DefaultKey(FALSE), RangeKey(4), RangeKey(5)}
+\* the family of the design check and of the replay.  Numeric keys come in SLOTS; the members of one slot are variants
+\* of the same kind of response:
+\*   ok   200 (JSON body)          nocontent 204
+\*   i1   declared informational   100, 101, 103 (with a body)          - valid inputs since /repo 5b87475
+\*   r3   declared redirection     301 (with a body), 302, 304
+\*   e4   client error, no body    404 (registered, named alias), 419 (not in http.HTTPStatus, alias Error419)
+\*   e4c  client error WITH a body 410
+\*   e5   server error, no body    500, 520 (not in http.HTTPStatus)
+\* plus `default` with / without content and the range keys 4XX, 5XX
+Universe == {CodeKey(200, TRUE), CodeKey(204, FALSE),
+             CodeKey(100, FALSE), CodeKey(101, FALSE), CodeKey(103, TRUE),
+             CodeKey(301, TRUE), CodeKey(302, FALSE), CodeKey(304, FALSE),
+             CodeKey(404, FALSE), CodeKey(419, FALSE), CodeKey(410, TRUE),
+             CodeKey(500, FALSE), CodeKey(520, FALSE),
+             DefaultKey(TRUE), DefaultKey(FALSE), RangeKey(4), RangeKey(5)}
 
 \* 404 / 500 are registered statuses with a named alias class; 419 / 520 are valid HTTP statuses that are NOT in the
 \* IANA registry / Python's http.HTTPStatus (alias `Error419`); the served statuses (MC_Dispatch!MCStatusReps) likewise mix
@@ -121,8 +132,6 @@ WellFormed(d) ==
   /\ \A m \in CodeMembers(d) : m.code \in 100..599
   /\ \A r \in Ranges(d) : r \in 1..5
 
-DeclSets(members, max) == {d \in UNION {kSubset(n, members) : n \in 1..max} : WellFormed(d)}
-
 \* canonical listing order: numeric keys ascending, then range keys, then default
 Rank(m) == (CASE m.k = "code" -> 0 [] m.k = "range" -> 10000 [] OTHER -> 20000) + 2 * m.code + (IF m.content THEN 1 ELSE 0)
 CanonFirst(d) == CHOOSE m \in d : \A n \in d : Rank(m) <= Rank(n)
@@ -135,11 +144,45 @@ AltFirst(d) ==
       lo   == CHOOSE m \in rest : \A n \in rest : Rank(m) <= Rank(n)
       hi   == CHOOSE m \in rest : \A n \in rest : Rank(m) >= Rank(n)
   IN  IF rest = {} THEN CanonFirst(d) ELSE IF SumRank(d) % 2 = 0 THEN lo ELSE hi
-\* which response is listed first: every choice (allOrders); otherwise the canonical one, and for the documents that
-\* declare no success response at all (the ones for which "first listed" is a documented fallback rule) a second order
-Firsts(d, allOrders) == IF allOrders THEN d ELSE IF ~HasSuccess(d) THEN {CanonFirst(d), AltFirst(d)} ELSE {CanonFirst(d)}
-Scenarios(members, max, allOrders) ==
-  UNION {{[d |-> d, first |-> f] : f \in Firsts(d, allOrders)} : d \in DeclSets(members, max)}
+\* ---- the declarations of the family ------------------------------------------------------------------------
+SlotOf(m) ==
+  CASE m.k = "default" -> "default"
+    [] m.k = "range"   -> IF m.code = 4 THEN "r4" ELSE "r5"
+    [] m.code = 200    -> "ok"
+    [] m.code = 204    -> "nocontent"
+    [] m.code \in 100..199 -> "i1"
+    [] m.code \in 300..399 -> "r3"
+    [] m.code = 410    -> "e4c"
+    [] m.code \in 400..499 -> "e4"
+    [] OTHER           -> "e5"
+SlotNum(sl) == CASE sl = "ok" -> 1 [] sl = "nocontent" -> 2 [] sl = "i1" -> 3 [] sl = "r3" -> 4 [] sl = "e4" -> 5
+                 [] sl = "e4c" -> 6 [] sl = "e5" -> 7 [] sl = "default" -> 8 [] sl = "r4" -> 9 [] OTHER -> 10
+Rotated == {"i1", "r3", "e4", "e5"}
+\* at most one variant of a slot per declaration
+OnePerSlot(d) == \A m, n \in d : SlotOf(m) = SlotOf(n) => m = n
+VariantsOf(members, sl) == {m \in members : SlotOf(m) = sl}
+Idx(members, m) == Cardinality({n \in VariantsOf(members, SlotOf(m)) : Rank(n) < Rank(m)})
+SlotWeight(d) == FoldSet(LAMBDA m, acc : acc + SlotNum(SlotOf(m)), 0, d)
+\* stratification of the quick tier: singles and pairs take EVERY variant (every declared 1xx / 3xx / registered and
+\* unregistered error code alone and next to every other kind of response); for a triple of slots ONE combination of
+\* variants, rotated by a weight of the slots.  The full family (thorough) takes every combination
+Chosen(members, d) ==
+  \A m \in d : SlotOf(m) \in Rotated =>
+      Idx(members, m) = (SlotWeight(d) + SlotNum(SlotOf(m))) % Cardinality(VariantsOf(members, SlotOf(m)))
+\* the stratified family: what the quick tier runs, and the part of the full family that gets the full treatment
+Core(members, d) == Cardinality(d) < 3 \/ Chosen(members, d)
+DeclSets(members, max, full) ==
+  {d \in UNION {kSubset(n, members) : n \in 1..max} : WellFormed(d) /\ OnePerSlot(d) /\ (full \/ Core(members, d))}
+
+\* which response is listed first: the canonical one, and for the documents that declare no success response at all
+\* (the ones for which "first listed" is a documented fallback rule) a second order; in the full family every choice
+\* for the declarations of the stratified family
+Firsts(members, d, full) ==
+  IF full /\ Core(members, d) THEN d ELSE IF ~HasSuccess(d) THEN {CanonFirst(d), AltFirst(d)} ELSE {CanonFirst(d)}
+
+\* `full`: every variant combination (thorough); otherwise the stratified family
+Scenarios(members, max, full) ==
+  UNION {{[d |-> d, first |-> f] : f \in Firsts(members, d, full)} : d \in DeclSets(members, max, full)}
 
 \* the HEADERS of the server's answer are the third dimension of "whatever the server answers" (after status and body).
 \* No outcome function below takes them: the property demands the same status-carrying, class-correct error whatever
